@@ -31,8 +31,9 @@ def main():
     if checks is None:
         checks = [prop]
     out = {"id": sid, "property": prop, "summary": meta.get("summary"), "needs_to_manifest": meta.get("needs_to_manifest"),
-           "author_demo_cmd": meta.get("demo_cmd"), "author_result_with_change": meta.get("result_with_change"),
-           "author_result_without_change": meta.get("result_without_change"), "confirmed": {}}
+           "author_demo_cmd": meta.get("author_demo_cmd") or meta.get("demo_cmd"),
+           "author_result_with_change": meta.get("author_result_with_change") or meta.get("result_with_change"),
+           "author_result_without_change": meta.get("author_result_without_change") or meta.get("result_without_change"), "confirmed": {}}
     wt = "/tmp/ev/wt-" + sid
     sh("git -C /repo worktree remove --force %s" % wt)
     shutil.rmtree(wt, ignore_errors=True)
@@ -60,14 +61,15 @@ def main():
         if rc != 0:
             out["confirmed"]["suite_output"] = o[-1500:]
         # demo
-        demo_dir_in_repo = os.path.dirname(meta.get("demo_path_in_repo", "").split()[0])
+        dp = meta.get("demo_path_in_repo") or (meta.get("demo_files") or [""])[0]
+        demo_dir_in_repo = os.path.dirname(dp.split()[0]) if dp else ""
         demo_files = []
         for f in sorted(os.listdir(os.path.join(src, "demo"))):
             dst = os.path.join(wt, demo_dir_in_repo, f)
             os.makedirs(os.path.dirname(dst), exist_ok=True)
             shutil.copy(os.path.join(src, "demo", f), dst)
             demo_files.append(os.path.join(demo_dir_in_repo, f))
-        cmd = re.sub(r"/tmp/wt/[ab]\d+", wt, meta.get("demo_cmd", ""))
+        cmd = re.sub(r"/tmp/wt/[ab]\d+", wt, meta.get("demo_cmd", "")).replace("<worktree>", wt)
         out["demo_cmd"] = re.sub(re.escape(wt), "<worktree>", cmd)
         out["demo_files"] = demo_files
         rc1, o1 = sh(cmd, cwd=wt, timeout=900)
@@ -113,12 +115,14 @@ def main():
 def finish(out, src, sid, headpatch):
     dst = os.path.join("/verif/seeded", sid)
     os.makedirs(os.path.join(dst, "demo"), exist_ok=True)
+    same = os.path.realpath(src) == os.path.realpath(dst)
     if headpatch:
         open(os.path.join(dst, "patch.diff"), "w").write(headpatch)
-    else:
+    elif not same:
         shutil.copy(os.path.join(src, "patch.diff"), os.path.join(dst, "patch.diff"))
-    for f in os.listdir(os.path.join(src, "demo")):
-        shutil.copy(os.path.join(src, "demo", f), os.path.join(dst, "demo", f))
+    if not same:
+        for f in os.listdir(os.path.join(src, "demo")):
+            shutil.copy(os.path.join(src, "demo", f), os.path.join(dst, "demo", f))
     prev = {}
     mp = os.path.join(dst, "meta.json")
     if os.path.exists(mp):
